@@ -100,3 +100,34 @@ Proof.
   destruct (feed (msg_stage k) init_state w) as [p1 os1] eqn:E. cbn [fst snd] in *.
   rewrite (messages_independent k w (concat ws) os1 p1 E H2), (IH H3). reflexivity.
 Qed.
+
+(* ------------------------------------------------------------------------ *)
+(* Transfer-Encoding: chunked overrides Content-Length (RFC 7230 3.3.3). *)
+Lemma chunked_length_ignored k sl h :
+  te_chunked h = true ->
+  head_length k sl h =
+  match k with
+  | Req => None
+  | Resp head =>
+    let st := sl_status sl in
+    if N.eqb st 204 || N.eqb st 304 || (N.leb 100 st && N.ltb st 200) || head then Some 0%N else None
+  end.
+Proof.
+  intros Hc. unfold head_length. rewrite Hc. destruct k as [|head]; [reflexivity|].
+  destruct (N.eqb (sl_status sl) 204 || N.eqb (sl_status sl) 304
+            || (N.leb 100 (sl_status sl) && N.ltb (sl_status sl) 200) || head); reflexivity.
+Qed.
+
+(* When the completed header block says chunked, the body is read by the chunk
+   decoder whatever Content-Length says (any value, either header order), for
+   requests and responses; the Content-Length value influences nothing
+   (chunked_length_ignored: not even .length / the persistence decision). *)
+Theorem chunked_overrides_length k sl h cy b h' r :
+  leader_step h b = LDone h' r -> te_chunked h' = true ->
+  msg_stage k {| m_phase := PLeader sl h; m_carry := cy |} b =
+  Step {| m_phase := PChunk {| hd_start := sl; hd_headers := h'; hd_chunked := true;
+                               hd_persisted := head_persisted k sl h' (head_length k sl h') |} CSize [] [];
+          m_carry := init_carry |} r None.
+Proof.
+  intros Hl Hc. unfold msg_stage. cbn [m_phase m_carry]. rewrite Hl, Hc. reflexivity.
+Qed.
